@@ -38,7 +38,7 @@ def run(ctx):
     for k in range(rounds):
         n = 800 if ctx.tier == "quick" else 1600
         env = dict(os.environ, **{k2: v for k2, v in vlib.GOENV.items() if k2.startswith("GO")})
-        env.update(FC_VERIF="c11", FC_VERIF_ARGS="%d %d %s" % (ctx.seed * 50 + k, n, wd), GOMAXPROCS="2")
+        env.update(FC_VERIF="c11", FC_VERIF_ARGS="%d %d %s" % (ctx.seed * 50 + k, n, wd), GOMAXPROCS="1")
         ctx.stream("c11/%d" % k, [fcdrv], env=env, timeout=1800, max_samples=2)
     # for the end-to-end lines the oracle's answer is the specification (denote): mismatch = failing input
     for name, st in ctx.streams.items():
